@@ -349,6 +349,14 @@ pub fn run(ctx: &Ctx) {
     let o = civ.ord(s.0, s.1, s.2).unwrap();
     hdays.extend(o..o + if ctx.quick() { 90 } else { 400 });
   }
+  // Decembers (both sides of the winter solstice) of several eras: the solstice day drifts from Dec 22 to Dec 11 (1582) and Dec 19 (9999)
+  for y in [500, 1000, 1500, 4000, 7000, 9990] {
+    if ctx.quick() && y != 1500 && y != 9990 {
+      continue;
+    }
+    let o = civ.ord(y, 12, 1).unwrap();
+    hdays.extend(o..o + 31);
+  }
   let done = par_chunks(ctx, 0, hdays.len(), 8, |a, b, l| {
     for i in a..b {
       check_hours(ctx, &civ, &tm, hdays[i], l);
